@@ -99,7 +99,7 @@ def gen(ch, tier):
         opts["n_samples"] = ch.randint(2, 8)
     else:
         opts["n_samples_default"] = True
-    d = ch.choice(["absolute", None, "levenshtein", "numerical" if numeric else "levenshtein"])
+    d = ch.choice(["absolute", None, "levenshtein", "numerical", "numerical"] if numeric else ["absolute", None, "levenshtein", "levenshtein"])
     if d is not None:
         opts["cat_dissim"] = d
     opts["mathet"] = ch.coin(0.4)
@@ -379,7 +379,7 @@ def run(case):
     if o.get("cat_dissim"):
         stats["opt_d_" + o["cat_dissim"]] = 1
     return {"violations": violations[:2], "stats": stats, "keys": keys,
-            "digest": digest([text if case["output"] == "print" else None, [v["kind"] for v in violations[:2]]]).replace(root, ""),
+            "digest": digest([text.replace(root, "<scratch>") if case["output"] == "print" else None, [v["kind"] for v in violations[:2]]]),
             "sample": {"argv": [a.replace(root, "<scratch>") for a in argv[1:]], "files": case["files"][:1],
                        "cli_schedule": case["cli_schedule"], "api_schedule": case["api_schedule"]}}
 
